@@ -56,7 +56,10 @@ def run_impl(ctx, cases):
     import concurrent.futures as cf
     import vlib
     outs = [None] * len(cases)
-    hidx = [k for k, c in enumerate(cases) if "e2e-gate" not in c.tags]
+    hidx = [k for k, c in enumerate(cases) if "e2e-gate" not in c.tags and "pfull" not in c.tags]
+    for k, c in enumerate(cases):
+        if "pfull" in c.tags:
+            outs[k] = "same"
     hout = vlib.run_parallel(ctx.harness, [cases[k].line for k in hidx], timeout=HARNESS_TIMEOUT, label="harness") if ctx.harness else ["NOHARNESS"] * len(hidx)
     for k, o in zip(hidx, hout):
         outs[k] = o
@@ -87,7 +90,7 @@ def canon(s):
 
 
 def nontrivial(c):
-    return c.impl.startswith(("toks", "bc", "cerr", "perr", "ok (prog", "gate "))
+    return c.impl.startswith(("toks", "bc", "cerr", "perr", "ok (prog", "gate ")) or (c.impl == "same" and c.model == "same")
 
 
 def classify(c):
@@ -96,7 +99,7 @@ def classify(c):
 
 def model_skip(c):
     # `scan`: scanner model; `pprog`: program-level Pratt-parser model (lean/P2sh/Model/Parser.lean, Props/C01Parse.lean)
-    return not c.line.startswith(("scan ", "pprog "))
+    return not c.line.startswith(("scan ", "pprog ", "pfull "))
 
 
 def mutate(rng, src):
@@ -186,6 +189,13 @@ PP_FIXED = ["", ";", "let x = 1", "let x = 1;", "let = 1", "let x 1", "let x =",
             "if x { 1 } + 2", "1 + if x { 1 } else { 2 }", "if x { 1 } else { 2 } = 3", "x = if y { 1 }", "if x { let y = 1; y }", "if x {", "if x { 1", "if x { 1 } else {", "if x { 1 } else",
             "let f = fn(x) { if x { return 1; } 2 };", "while x < 3 { x = x + 1; }", "1; 2; 3", "1 2", "x y", "let x = 1 let y = 2", "lbl: while x { }", "lbl: 1", "@ x { }", "x: 1",
             "a ! b", "a ~ b", "1 true", "let x = fn() { };\nx()", "if (x) { y }", "if x == 1 { y } else { z }", "{ x = 1 }", "fn g() { fn h() { } }", "let let = 1", "return return", "return 1 2"]
+
+
+PF_TOKENS = ["match", "x", "{", "}", "=>", ",", "_", "|", "1", "2", "..", "..=", "\"s\"", "'c'", "b'a'", "true", "lbl:", "loop", "while", "break", "continue", "lbl", "@", "end",
+             "[", "]", "map", ":", "(", ")", ";", "let", "=", "+", "0x1f", "1.5", "null", "$", "fn", "if", "else", "return", "stdin"]
+PP_FULL = ["match x { 1 => 2, _ => 3 }", "match x { 1 | 2 => { 1 } 3..5 => 2 }", "match x { _ => 1, _ => 2 }", "match x { \"a\"..\"c\" => 1 }", "match x { y => 1 }", "match x { 1 => 2",
+           "a: loop { break a; }", "a: while x { continue a; }", "a: let y = 1;", "@ x { 1 }", "@ end { 1 }", "@ x", "@ end", "@ { 1 }", "@ x;", "[1, 2, [3]]", "[1, 2", "[,]", "map {1: 2, \"a\": [1]}",
+           "map {1: }", "map 1", "map {", "let m = match 1 { 1..=2 | 5 => { let t = 1; t } };", "$1", "$x", "0xffffffffffffffffff", "0b102", "'ab'", "b''", "1.5.5", "stdin", "null", "_"]
 
 
 def pprog_cases(ctx, programs):
@@ -283,4 +293,16 @@ def cases(ctx):
             body = h.format(B=b)
             for wrap in ("{X}", "let v = {X};", "let x = 1; {X}", "fn g() {{ {X} }} g();", "puts({X});", "{X}; {X}"):
                 out.append(Case("compile " + hexs(wrap.format(X=body)), ("degenerate",)))
+    # the parser model's FULL tree (match, labels, filters, array / map literals, every literal kind) against the real
+    # parser's: op `pfull` carries the real parser's AST (harness op `parse`) and answers `same` / `diff …`; the
+    # implementation side of these lines is the constant `same`, so a `diff` is a broken tie
+    from vlib import lang_lines
+    fsrcs = list(progs[:ctx.scale(1500, 40000)]) + PP_FULL
+    for _ in range(ctx.scale(1500, 40000)):
+        fsrcs.append(mutate(rng, rng.choice(progs)))
+    for _ in range(ctx.scale(1500, 40000)):
+        fsrcs.append(" ".join(rng.choice(PF_TOKENS) for _ in range(rng.randint(1, 12))))
+    fsrcs = [x for x in fsrcs if x.strip()]
+    for l, x in zip(lang_lines(ctx, fsrcs, op="pfull"), fsrcs):
+        out.append(Case(l, ("pfull",), extra={"src": x}))
     return out + pprog_cases(ctx, progs)
